@@ -78,7 +78,7 @@ impl Prop for C18 {
             if rng.chance(1, 4) {
                 prefix = rng.pick(&prefixes).to_string();
             }
-            script.push(Op::BreakFolder { kind: k });
+            script.push(Op::BreakFolder { kind: k, victim: rng.below(8) });
             script.push(Op::ExportDot { sc: 0, prefix: prefix.clone() });
             if rng.chance(1, 5) {
                 // the same fault hit twice
@@ -106,7 +106,7 @@ impl Prop for C18 {
     fn expected_probes(&self) -> &'static [&'static str] {
         &[
             "probe.lookahead_cluster_verified", "probe.all_verdict_fault_kinds_fired", "probe.files_verified", "probe.multi_mode_export",
-            "probe.label_with_escapes", "probe.export_over_stale_file", "probe.export_after_heal", "probe.fancy_mode_name",
+            "probe.label_with_escapes", "probe.fault_on_non_last_mode_file", "probe.export_over_stale_file", "probe.export_after_heal", "probe.fancy_mode_name",
             "fault.folder_missing", "fault.folder_not_a_dir", "fault.folder_read_only_perm", "fault.folder_read_only_fs",
             "fault.folder_name_is_dir", "fault.folder_stale_file",
         ]
@@ -447,6 +447,7 @@ struct Exec18<'w> {
     may_exist: BTreeSet<String>,
     fired: BTreeSet<&'static str>,
     healed_once: bool,
+    victim: usize,
 }
 
 fn is_root() -> bool {
@@ -467,7 +468,7 @@ impl<'w> Exec18<'w> {
         let home = PathBuf::from(rw).join(format!("p{}", std::process::id())).join("t");
         let ro = std::env::var("C18_RO").ok().map(PathBuf::from).filter(|p| p.is_dir());
         let full = std::env::var("C18_FULL").ok().map(PathBuf::from).filter(|p| p.is_dir());
-        let mut e = Exec18 { world, scanners: vec![], home, ro, full, root: is_root(), state: None, may_exist: BTreeSet::new(), fired: BTreeSet::new(), healed_once: false };
+        let mut e = Exec18 { world, scanners: vec![], home, ro, full, root: is_root(), state: None, may_exist: BTreeSet::new(), fired: BTreeSet::new(), healed_once: false, victim: 0 };
         e.reset_home();
         e
     }
@@ -553,10 +554,11 @@ impl<'w> Exec for Exec18<'w> {
                     }
                 }
             }
-            Op::BreakFolder { kind } => {
+            Op::BreakFolder { kind, victim } => {
                 // a fault is applied to a healed folder
                 self.reset_home();
                 self.state = Some(*kind);
+                self.victim = *victim;
                 match kind {
                     FolderFault::Missing => {
                         let _ = std::fs::remove_dir_all(&self.home);
@@ -594,7 +596,10 @@ impl<'w> Exec for Exec18<'w> {
                 // faults that depend on the file names
                 match self.state {
                     Some(FolderFault::NameIsDir) => {
-                        let victim = &names[names.len() - 1];
+                        let victim = &names[self.victim % names.len()];
+                        if self.victim % names.len() + 1 < names.len() {
+                            mark("probe.fault_on_non_last_mode_file");
+                        }
                         let _ = std::fs::create_dir_all(self.home.join(victim));
                     }
                     Some(FolderFault::StaleFile) => {
